@@ -4,7 +4,7 @@ from lib import common as C
 from lib.common import cz, cn, cbool, clist, cpair, copt
 
 PID = 'C06'
-TARGETS = ['props/C06.vo', 'theories/BalanceOracle.vo']
+TARGETS = ['props/C06.vo', 'theories/BalanceOracle.vo', 'theories/BalanceSelProofs.vo']
 LEVEL = 'proof'
 DRIVER = 'balance_driver'
 
@@ -18,7 +18,11 @@ MANIFEST = dict(
          'packing covers the change bundle; _pack_tokens_for_change (modelled over an ARBITRARY size test) returns a partition '
          'of the change bundle whenever it returns; the body left by the two-pass _add_change_and_fee (any fee estimator, any '
          'min-ADA function, merge_change on/off) with its inputs resolved through the UTxO map satisfies the Conway balance '
-         'equation; partial liveness for ADA-only funds with a margin. Model tied to the code by exact slice correspondence; '
+         'equation; the selection step of build() (pool offered to the selectors = candidates not explicit / seen / excluded; '
+         'self.inputs = explicit once + the answer): for EVERY selector answer within the contract "members of the offered pool, '
+         'none twice" the distinctness premise holds and the body is balanced (C06_balanced_selected), and the contract is needed '
+         '(C06_selection_contract_needed); partial liveness for ADA-only funds with a margin. Model tied to the code by exact slice '
+         'correspondence (incl. the offered pool and the contract evaluated on the real selectors\' answers, random state seeded per scenario); '
          'the ledger balance oracle is evaluated in Coq on the CBOR of the body that build() returned.',
     note='Trusted: Coq kernel+vm_compute; hand model Balance.v validated by differential runs; ledger rule as written in '
          'Balance.v (Balanced); body reader BalanceOracle.view_body; generator; driver. No axioms.',
@@ -32,7 +36,10 @@ TRUSTED = [
     '_pack_tokens_for_change, _add_change_and_fee/_merge_changes, accounting of build() before selection), on top of Value.v; '
     'tied by correspondence: exact change outputs (order, raw bundles), exception kinds, deposits, selector request, packing, '
     'min-ADA and serialized value sizes',
-    'fee estimates (_estimate_fee) and the selectors\' answers enter the model as data recorded from the implementation',
+    'hand model coq/theories/BalanceSel.v of the selection step of build() (additional_utxo_pool, seen / excluded filtering, '
+    'appending the answer to self.inputs); tied by correspondence: the pool recorded at the selectors\' entry (same UTxOs, same order)',
+    'fee estimates (_estimate_fee) and the selectors\' answers enter the model as data recorded from the implementation; the answers '
+    'are checked against the contract selection_ok on every run (that the selector algorithms keep it for all random streams is C14)',
     'tools/impl/balance_driver.py (ChainContext serving the scenario UTxO map, recording wrappers that call the real methods), '
     'tools/props/c06.py (generator, Coq literal printer)',
 ]
@@ -267,7 +274,7 @@ def gen_e2e(rng, force=None):
                 donation=donation, change=change, merge=merge,
                 fee_buffer=rng.choice([None, None, None, 0, 1000, 70000]),
                 treasury=rng.choice([None, 10 ** 15]),
-                order=rng.sample(range(11), 11) if rng.random() < 0.6 else None)
+                order=rng.sample(range(11), 11) if rng.random() < 0.6 else None, rseed=rng.getrandbits(32))
     # fund the wallet so that most scenarios build: one more UTxO covering deposits, donation, outputs
     seen = set()
     need = sum(cert_net(c, pp, initial, seen) for c in (certs or [])) + sum(p[0] for p in props) + (donation or 0) \
@@ -279,6 +286,92 @@ def gen_e2e(rng, force=None):
         if mode == 'explicit' or (mode == 'mixed' and rng.random() < 0.5):
             case['explicit'].append(len(utxos) - 1)
     return case
+
+
+def gen_sel(rng):
+    """selection-rich scenario: the inputs are left (mostly) to the default selectors, and the wallet gives them a real
+    choice — a few large ADA-only UTxOs and several small UTxOs carrying a little of a few fungible assets; the request has
+    ADA and 0..4 native assets (sent to outputs and / or burned), so that RandomImproveMultiAsset runs its random-select and
+    improve phases once per requested asset kind.  The state of `random` (rseed) is part of the scenario."""
+    pp = dict(rng.choice(PPS + PPS[:2]))
+    pol_mint = policies()
+    pols = pol_mint[:3] + ['aa' * 28, 'ff' * 28]
+    U = max(ADA, pp['a'] * 500 + pp['b'])                 # about one fee
+    wallet = rng.choice(ADDRS[:3])
+    change = wallet if rng.random() < 0.8 else rng.choice(ADDRS[:4])
+    kinds = [(rng.choice(pols), rng.choice(NAMES)) for _ in range(rng.randint(1, 4))]
+    kinds = dedup(kinds)
+    n_big = rng.randint(1, 4)
+    n_small = rng.randint(min(4, 12 - n_big), 12 - n_big)
+    txids = ['%064x' % rng.getrandbits(256) for _ in range(rng.randint(1, 6))]
+    seen_in, utxos = set(), []
+
+    def fresh():
+        while True:
+            t, i = rng.choice(txids), rng.randrange(0, 16)
+            if (t, i) not in seen_in:
+                seen_in.add((t, i))
+                return t, i
+    for k in range(n_big + n_small):
+        t, i = fresh()
+        if k < n_big:
+            coin, m = rng.randint(8, 30) * U + rng.randrange(0, 1000), []
+        else:
+            coin = rng.randint(12, 30) * U // 10
+            t_ = {}
+            for key in rng.sample(kinds, rng.randint(1, min(2, len(kinds)))):
+                t_[key] = rng.choice([1, 1, 1, 2, 2, 3, 5, 10])
+            m = to_ma(t_) if rng.random() < 0.9 else []
+        a = wallet if rng.random() < 0.95 else rng.choice(ADDRS[:3])
+        utxos.append(dict(t=t, i=i, a=a, c=coin, m=m))
+    rng.shuffle(utxos)
+    n = len(utxos)
+    idx = list(range(n))
+    mode = rng.choice(['address', 'address', 'mixed'])
+    explicit, potential, excluded = [], [], []
+    addr_inputs = [wallet] if rng.random() < 0.9 else [wallet, rng.choice(ADDRS[:3])]
+    if mode == 'mixed':
+        explicit = rng.sample(idx, rng.randint(1, 2))
+        if rng.random() < 0.4:
+            potential = rng.sample(idx, rng.randint(1, n))
+    if rng.random() < 0.15:
+        excluded = [k for k in rng.sample(idx, rng.randint(1, 2)) if k not in explicit]
+    have = ma_total([u['m'] for k, u in enumerate(utxos) if k not in excluded and u['a'] == wallet])
+    total_big = sum(u['c'] for u in utxos if not u['m'] and u['a'] == wallet)
+    want_ada = int(total_big * rng.choice([0.15, 0.3, 0.5, 0.7, 0.7, 0.85]))
+    merge = rng.random() < 0.2
+    outs = []
+    nout = rng.randint(1, 3)
+    for k in range(nout):
+        a = change if (merge and k == 0) else rng.choice(ADDRS)
+        outs.append(dict(a=a, c=max(want_ada // nout, 2 * U), m=[]))
+    asked = rng.sample(sorted(have), rng.randint(0 if rng.random() < 0.2 else 1, min(4, len(have)))) if have else []
+    burn = {}
+    for key in asked:
+        q = rng.randint(1, max(1, have[key] // rng.choice([2, 3, 3, 4])))
+        if key[0] in pol_mint[:3] and rng.random() < 0.3:
+            burn[key] = -q
+        else:
+            o = rng.choice(outs)
+            t_ = ma_total([o['m']]); t_[key] = t_.get(key, 0) + q
+            o['m'] = to_ma(t_)
+    mint, scripts = None, []
+    if burn or rng.random() < 0.1:
+        t_ = dict(burn)
+        if rng.random() < 0.3:
+            t_[(rng.choice(pol_mint[:3]), rng.choice(NAMES))] = rng.choice([1, 5, 1000])
+        t_ = {k: v for k, v in t_.items() if v}
+        if t_:
+            mint = to_ma(t_)
+            scripts = sorted({pol_mint.index(p) for p, _ in mint})
+    wdrl = [[rng.choice(REWARD), rng.choice([777, 5 * ADA])]] if rng.random() < 0.15 else None
+    certs = [rand_cert(rng, pp) for _ in range(rng.randint(1, 2))] if rng.random() < 0.15 else None
+    donation = rng.choice([1, 1234567]) if rng.random() < 0.1 else None
+    return dict(kind='e2e', pp=pp, utxos=utxos, explicit=explicit, addr_inputs=addr_inputs, potential=potential,
+                excluded=excluded, outs=outs, mint=mint, scripts=scripts, wdrl=wdrl, certs=certs,
+                pool_initial=rng.random() < 0.6, props=[], donation=donation, change=change, merge=merge,
+                fee_buffer=rng.choice([None, None, None, 1000]), treasury=None,
+                order=rng.sample(range(11), 11) if rng.random() < 0.5 else None, rseed=rng.getrandbits(32), sel=True)
 
 
 def gen_calc(rng):
@@ -428,12 +521,23 @@ def render_case(c, r, j):
         corr.append(f'corr_presel {s} {st} {explicit} (map snd ov{j}) {cz(fees[0])} {cbool(not can_merge)} {req}')
     else:
         corr.append('true')
+    # the selection step: the pool the selectors were offered, their answer against the contract (BalanceSel.v)
+    excl, pot = pick(c.get('excluded') or []), pick(c.get('potential') or [])
+    addrs = clist([chx(bytes.fromhex(a)) for a in c.get('addr_inputs') or []])
+    selargs = f'um{j} {explicit} {excl} {pot} {addrs}'
+    sel_ok = [x for x in log['sel'] if x.get('res', ['err'])[0] == 'ok']
+    selected = clist([r_txin(t) for t in (sel_ok[-1]['res'][1] if sel_ok else [])])
+    if log['sel']:
+        pool = log['sel'][0]['pool']
+        corr.append(f'corr_pool {selargs} {clist([r_txin(t) for t in pool])}' if all(x['pool'] == pool for x in log['sel'])
+                    else 'false')
+        corr.append(f'corr_selok {selargs} {selected}')
+    else:
+        corr += ['true', 'true']
     binputs = r.get('binputs')
     if binputs is not None and len(fees) >= 2 and all(tuple(t) in pos for t in binputs):
         defs.append(f'Definition in{j} : list utxo := {pick([pos[tuple(t)] for t in binputs])}.')
-        sel_ok = [x for x in log['sel'] if x.get('res', ['err'])[0] == 'ok']
-        selected = clist([r_txin(t) for t in (sel_ok[-1]['res'][1] if sel_ok else [])])
-        corr.append(f'corr_sel {explicit} {selected} in{j}')
+        corr.append(f'corr_sel_model {selargs} {selected} in{j}')
         if r['body'] is not None:
             defs.append(f'Definition bd{j} : bytes := {chx(bytes.fromhex(r["body"]))}.')
             impl = f'(IOk ({clist([cpair(chx(bytes.fromhex(o[0])), r_val(o[1])) for o in r["outs"]])}, {cz(r["fee"])}))'
@@ -511,13 +615,15 @@ def features(c):
         qs = [q for _, a in c['mint'] for _, q in a]
         f.append('mint' if any(q > 0 for q in qs) else '')
         f.append('burn' if any(q < 0 for q in qs) else '')
-    for key in ('wdrl', 'certs', 'props', 'donation', 'merge', 'potential', 'scripts'):
+    for key in ('wdrl', 'certs', 'props', 'donation', 'merge', 'potential', 'excluded', 'scripts'):
         if c.get(key):
             f.append(key)
     if c.get('explicit') and len(set(c['explicit'])) < len(c['explicit']):
         f.append('dup-input')
     if any(u['m'] for u in c['utxos']):
         f.append('multi-asset')
+    if c.get('sel'):
+        f.append('selection-rich')
     f.append('explicit' if c.get('explicit') and not c.get('addr_inputs') else
              'address' if not c.get('explicit') else 'mixed')
     return [x for x in f if x]
@@ -532,6 +638,11 @@ def classify(c, r):
         return 'calc-change-sum'
     if c['pp']['mvs'] < 100 and any(u['m'] for u in c['utxos']):
         return 'pack-break-tiny-max-val-size'
+    for x in (r.get('log') or {}).get('sel', []):
+        if x.get('res', ['err'])[0] == 'ok':
+            ans, pool = [tuple(t) for t in x['res'][1]], {tuple(t) for t in x['pool']}
+            if len(set(ans)) < len(ans) or not set(ans) <= pool:
+                return 'unbalanced-selector-answer-outside-contract'
     fs = features(c)
     for key in ('donation', 'props', 'certs', 'wdrl', 'burn', 'mint', 'dup-input', 'merge', 'multi-asset'):
         if key in fs:
@@ -547,10 +658,11 @@ def nontrivial(c, r):
     return r['res'][0] == 'ok' and len(r['res'][1]) >= 1
 
 
-def gen_cases(ctx, n_e2e, n_calc, n_pack):
+def gen_cases(ctx, n_e2e, n_sel, n_calc, n_pack):
     cases = [dict(c) for c in corpus_cases()]
     ncorpus = len(cases)
     cases += [gen_e2e(ctx.rng) for _ in range(n_e2e)]
+    cases += [gen_sel(ctx.rng) for _ in range(n_sel)]
     cases += [gen_calc(ctx.rng) for _ in range(n_calc)]
     cases += [gen_pack(ctx.rng) for _ in range(n_pack)]
     return cases, ncorpus
@@ -564,15 +676,17 @@ def run(ctx, cases):
     return results, mism, ofail
 
 
-COMPONENTS = {'e2e': ['deposits', 'pre-selection request', 'self.inputs = explicit + selected', 'change/fee phase',
+COMPONENTS = {'e2e': ['deposits', 'pre-selection request', 'pool offered to the selectors',
+                      'selector answer within its contract (members of the pool, none twice)',
+                      'self.inputs = explicit + selected', 'change/fee phase',
                       'body content = scenario', 'pool untouched'],
               'calc': ['deposits', '_calc_change', 'change address'], 'pack': ['_pack_tokens_for_change', 'probe', 'probe', 'probe']}
 
 
 def correspond(ctx, sizes=None):
-    n_e2e, n_calc, n_pack = sizes or (ctx.n(320, 12000), ctx.n(200, 6000), ctx.n(150, 4000))
+    n_e2e, n_sel, n_calc, n_pack = sizes or (ctx.n(280, 10000), ctx.n(120, 4000), ctx.n(180, 6000), ctx.n(140, 4000))
     policies()
-    cases, ncorpus = gen_cases(ctx, n_e2e, n_calc, n_pack)
+    cases, ncorpus = gen_cases(ctx, n_e2e, n_sel, n_calc, n_pack)
     results, mism, ofail = run(ctx, cases)
     hist, errk, outcome, known_hits = {}, {}, {'body': 0, 'refused': 0}, {}
     for c, r in zip(cases, results):
@@ -606,7 +720,11 @@ def correspond(ctx, sizes=None):
              '0..4 requested outputs (with tokens, at the change address, zero lovelace), mint and burn (with and without native '
              'scripts), 0..2 withdrawals, 0..6 certificates of every kind incl. equal-coin registrations, deregistrations, DRep '
              'reg/unreg, pool registration initial/not and repeated, 0..3 proposals incl. a repeated one, donation, merge_change '
-             'on/off, fee_buffer, random order of the builder calls, 9 protocol-parameter sets (fee 0 .. > 2^32, max_val_size 100..5000, coins_per_utxo_byte 1000..100000, '
+             'on/off, fee_buffer, random order of the builder calls, state of the `random` module seeded per scenario (rseed); '
+             'selection-rich scenarios (gen_sel): 1..4 large ADA-only + 4..11 small UTxOs carrying 1..2 of 1..4 fungible assets, '
+             'inputs left to the default selectors (address / mixed with 1..2 explicit, potential and excluded inputs, a second input '
+             'address), request = 15..85 % of the large ADA over 1..3 outputs + 0..4 asset kinds sent to outputs or burned, so that '
+             'RandomImproveMultiAsset runs its random-select and improve phases per asset kind; 9 protocol-parameter sets (fee 0 .. > 2^32, max_val_size 100..5000, coins_per_utxo_byte 1000..100000, '
              'deposits 0..5e8); slice scenarios for _calc_change (all UTxOs as inputs, random fee, respect_min_utxo on/off) and '
              '_pack_tokens_for_change (max_val_size 30..5000); non-trivial = build returned a body / _calc_change returned '
              'outputs / packing returned; distinct by hash',
@@ -614,8 +732,9 @@ def correspond(ctx, sizes=None):
         feature_histogram=hist, build_outcomes=outcome, error_kinds=errk,
         corpus=dict(cases=ncorpus, refused=corpus_refused),
         known_region_hits=known_hits,
-        compared='per scenario: _get_total_key_deposit/_get_total_proposal_deposit; the request handed to the selectors; '
-                 'self.inputs = explicit (once) + selected; outputs and fee of the returned body (or the exception kind) against '
+        compared='per scenario: _get_total_key_deposit/_get_total_proposal_deposit; the request handed to the selectors; the pool '
+                 'handed to the selectors = BalanceSel.offered_pool (order included); the selectors\' answer against selection_ok '
+                 '(members of the pool, none twice); self.inputs = explicit (once) + selected; outputs and fee of the returned body (or the exception kind) against '
                  'acf_with on the recorded fee estimates with the modelled min-ADA and packing; certificates/withdrawals/mint/'
                  'proposals/donation/inputs read back from the body bytes; oracle = Balance.balanced on the body bytes with '
                  'inputs resolved through the scenario UTxO map',
@@ -627,7 +746,7 @@ def correspond(ctx, sizes=None):
 def search(ctx, mism):
     """Something no longer checks: look for an input on which the property itself fails on the implementation."""
     ctx.rng.seed(f'search-{ctx.seed}')
-    r = correspond(ctx, sizes=(1500, 600, 400) if ctx.quick else (20000, 8000, 4000))
+    r = correspond(ctx, sizes=(900, 900, 500, 300) if ctx.quick else (16000, 10000, 8000, 4000))
     if r['oracle_fail']:
         return min(r['oracle_fail'], key=lambda f: len(json.dumps(f, default=str)))
     return None
